@@ -322,6 +322,7 @@ def _inline_one(fn, blk, idx, h, serial, repo):
     hexit = h.get("exit")
     newblocks = []
     const_returns = []
+    expr_returns = []          # (copied block, index of the `$ret = value` element in it) for every return with a value
 
     def callee_ref(r):
         t = tuple(r)
@@ -347,6 +348,7 @@ def _inline_one(fn, blk, idx, h, serial, repo):
                     elems[i] = e2
                     extra.append({"cls": "BinaryOperator", "op": "=", "kids": [[hb["id"], i], e["kids"][0]], "ty": h.get("ret"), "loc": e.get("loc", ""),
                                   "text": "%s" % e.get("text", "return")})
+                    expr_returns.append((nb, len(elems) + len(extra) - 1))
                     # a constant answer (return (-1), return (0), return (NULL)): remembered for the threading below
                     rv = hb["elems"][e["kids"][0][1]] if e["kids"][0][0] == hb["id"] and 0 <= e["kids"][0][1] < len(hb["elems"]) else None
                     seen_rv = 0
@@ -428,6 +430,34 @@ def _inline_one(fn, blk, idx, h, serial, repo):
                 B2["elems"][0] = saved
                 if v is not None and B2["succs"][0 if v else 1] is not None:
                     nb["succs"] = [(B2["succs"][0 if v else 1] if sx == b2id else sx) for sx in nb["succs"]]
+            # a return of an expression, when the caller's test is nothing but the truth of the result (`if (helper(..))`,
+            # `if (!helper(..))`, `!= 0`, `== 0`): the copy branches on the returned expression itself
+            saved = B2["elems"][0]
+            B2["elems"][0] = {"cls": "IntegerLiteral", "val": 1, "ty": saved.get("ty")}
+            v1 = value(cref2)
+            B2["elems"][0] = {"cls": "IntegerLiteral", "val": 0, "ty": saved.get("ty")}
+            v0 = value(cref2)
+            B2["elems"][0] = saved
+            if v1 is not None and v0 is not None and v1 != v0 and all(x is not None for x in B2["succs"]):
+                tsucc, fsucc = (B2["succs"][0], B2["succs"][1]) if v1 else (B2["succs"][1], B2["succs"][0])
+                consts = set(id(nb) for nb, _ in const_returns)
+                for nb, k in expr_returns:
+                    if id(nb) in consts or nb.get("succs") != [b2id] or nb.get("term"):
+                        continue
+                    asg = nb["elems"][k] if 0 <= k < len(nb["elems"]) else None
+                    if asg is None or asg.get("cls") != "BinaryOperator" or asg.get("op") != "=" or len(asg.get("kids") or []) != 2:
+                        continue
+                    vref = asg["kids"][1]
+                    ve = _get(fn, vref) if vref is not None else None
+                    # only a comparison or a logical expression is a truth value already (0 or 1)
+                    if ve is None or not (ve.get("cls") == "BinaryOperator" and ve.get("op") in ("==", "!=", "<", "<=", ">", ">=", "&&", "||") or (ve.get("cls") == "UnaryOperator" and ve.get("op") == "!")):
+                        continue
+                    nb["succs"] = [tsucc, fsucc]
+                    nb["usuccs"] = [None, None]
+                    nb["term"] = {"cls": "IfStmt", "cond": list(vref), "loc": asg.get("loc", "")}
+            if not any(sx == b2id for b in fn["blocks"] for sx in (b.get("succs") or [])):
+                # every return has been threaded past the test: the test itself is not on any path any more
+                B2["succs"] = [None for _ in B2["succs"]]
     for nb in newblocks:
         if len(nb.get("succs") or []) != 2 or (nb.get("term") or {}).get("cls") == "SwitchStmt":
             continue
